@@ -369,9 +369,12 @@ class MeshBase(object):
         new_mesh._colors = self._colors
         new_mesh._is_color_by_face = self._is_color_by_face
         if self._face_areas is not None:
-            new_mesh._face_areas = tuple(a * factor for a in self._face_areas)
+            if isinstance(self._face_areas, (float, int)):  # grid with one shared area
+                new_mesh._face_areas = self._face_areas * factor ** 2
+            else:
+                new_mesh._face_areas = tuple(a * factor ** 2 for a in self._face_areas)
         if self._area is not None:
-            new_mesh._area = self._area * factor
+            new_mesh._area = self._area * factor ** 2
 
     @staticmethod
     def _interpret_input_from_face_vertices(faces, purge):
